@@ -1202,6 +1202,12 @@ class Interp:
         outs = []
         targets = [(int(v), b) for v, b in t["targets"]]
         if isinstance(d, BoolV):
+            if d.val is None and "gate_preds" in self.side and body.name.endswith("get_message"):
+                # an undecided decision taken by the line gate itself (early-return style) is a gate predicate
+                x = d
+                while x.origin and x.origin[0] == "not" and isinstance(x.origin[1], BoolV):
+                    x = x.origin[1]
+                self.side["gate_preds"].append(x)
             for v, b in targets:
                 truth = bool(v)
                 if d.val is not None and d.val != truth:
@@ -1445,6 +1451,17 @@ class Interp:
 
     def unmodelled(self, state, callee, name, args):
         self.warn("unmodelled", name or callee.get("ty"))
+        # an unreviewed API applied to the input line itself: the result may depend on more than its hex digits
+        for a in args:
+            v = a
+            for _ in range(4):
+                if isinstance(v, RefV):
+                    v = self.get_path(state, v.cell, v.proj)
+            if isinstance(v, StrV) and v.skind == "line":
+                self.warn("line-use", "%s applied to the input line" % (name or callee.get("ty")))
+            elif isinstance(v, IterV) and v.src is not None and any(
+                    (isinstance(e, OpaqueV) and e.ty in ("char*", "byte*")) for e in v.src):
+                self.warn("line-use", "%s applied to the characters of the input line" % (name or callee.get("ty")))
         d = frozenset()
         for a in args:
             d |= deps_of(a)
